@@ -360,8 +360,12 @@ func genConfig(t *rapid.T, dir string) (config, expectation) {
 		}
 	}
 	nl := rapid.IntRange(1, 3).Draw(t, "nloggers")
+	if rapid.IntRange(0, 9).Draw(t, "noLoggers") == 0 {
+		nl = 0 // appenders only: a valid configuration, the built-in root logger keeps serving every tag
+	}
 	for i := 0; i < nl; i++ {
-		name := fmt.Sprintf("lg%d", i+1)
+		// names on both sides of "root" in sorting order
+		name := []string{"lg1", "zz2", "svc3"}[i]
 		tag := tagNames[i]
 		typ := rapid.SampledFrom([]string{"Logger", "AsyncLogger", "Logger", "Console", "File", "RollingFile", "Discard"}).Draw(t, name+"type")
 		n := &node{Type: typ, Fields: []field{attr("tags", tag)}}
@@ -927,6 +931,9 @@ func TestC15_Faults(t *testing.T) {
 		dir := filepath.Join(base, strconv.Itoa(n))
 		defer os.RemoveAll(dir)
 		c, _ := genConfig(t, dir)
+		if len(c.Loggers) == 0 || c.Loggers["lg1"] == nil {
+			t.Skip("the faults are injected into a configuration with loggers")
+		}
 		desc, _ := injectFault(t, c, nil)
 		if strings.HasPrefix(desc, "out-of-range") && vk.Known("C15:integer-attribute-silently-truncated") {
 			vk.Excluded("C15:integer-attribute-silently-truncated")
